@@ -27,7 +27,7 @@ ASSUMPTIONS = ["no fault kind applies to this property; simulation contributes t
                "handles and minimised replayable histories",
                "bounds of an unknown coalition are only compared after they were written through a bound setter "
                "(their value after unset / reset is not specified by the property)"]
-PROBES = ["bulk_setter_fed_live_view_of_another_handle", "bulk_bounds_overlapping_known", "failed_precondition", "op_on_copy", "op_on_negation", "reset_after_bounds",
+PROBES = ["call_with_unusable_value", "bulk_setter_fed_live_view_of_another_handle", "bulk_bounds_overlapping_known", "failed_precondition", "op_on_copy", "op_on_negation", "reset_after_bounds",
           "handles_3plus"]
 TIERS = {
     "quick": {"runs": 80000, "wall": 40, "batch": 48, "shrink_s": 40},
@@ -191,6 +191,26 @@ def run(sim: Sim) -> None:
         if len(handles) >= 3:
             sim.probe("handles_3plus")
         others = [(o, table(o.g)) for j, o in enumerate(handles) if j != hi]
+        if sim.flip(1, 14, "call-with-unusable-value"):
+            # a call whose value cannot be a number: if it raises, nothing may have changed (a coalition is known
+            # iff it WAS set or revealed); if it is accepted the handle is not modelled any further in this run
+            i = sim.choose(N, "bad-coal")
+            bad_value = sim.pick(["n/a", [1.0, 2.0], {"v": 1}], "bad-value")
+            which = sim.pick(["set_value", "reveal_value"], "bad-op")
+            if not (which == "reveal_value" and i in h.known):
+                before_bad = table(h.g)
+                sim.op("unusable-value", hi, which, i)
+                try:
+                    getattr(h.g, which)(bad_value, games.coalition(i))
+                    accepted = True
+                except Exception:
+                    accepted = False
+                sim.probe("call_with_unusable_value")
+                if accepted:
+                    return  # some numpy conversion accepted it: not a modelled operation
+                if table(h.g) != before_bad:
+                    sim.fail("C17.failed_operation_changed_the_table",
+                             {"n": n, "handle": h.kind, "what": f"{which} with value {bad_value!r} raised", "coalition": i})
         kind = sim.pick_weighted([("set", 5), ("unset", 3), ("reveal", 3), ("unreveal", 3), ("bulk_set", 2),
                                   ("bulk_reset", 2), ("bulk_lower", 3), ("bulk_upper", 3), ("scalar_bound", 3),
                                   ("copy", 1), ("neg", 1), ("set_all", 1)], "op")
